@@ -197,7 +197,9 @@ class MarkerExpression(SingleMarker):
                 rhs = normalize_name(rhs)
         if isinstance(rhs, str):
             try:
-                spec = Specifier(f"{self.op}{rhs}")
+                # self.op is stored reflected for literal-on-the-left markers
+                op = get_reflect_op(self.op) if self.reversed else self.op
+                spec = Specifier(f"{op}{rhs}")
             except InvalidSpecifier:
                 pass
             else:
